@@ -17,4 +17,4 @@ Extraction "extract/model.ml"
   IR.ir_run IR.finished_flag
   BC.bc_run
   Parse.parse
-  Machines.bf_machine_run Machines.ir_machine_run.
+  Machines.bf_machine_run Machines.ir_machine_run Machines.bf_step Machines.cfg_equiv Machines.cert_ok Machines.bf_cfg_after.
